@@ -472,6 +472,60 @@ end
 return f(N)`, maxN: 1000},
 }
 
+// Scenario templates (no depth parameter, run at N=100 only): objects that
+// cross a context boundary.
+var scenarioTemplates = []recTemplate{
+	{name: "ctx-gc-remark-in-child", maxN: 100, want: wantStr("done"), src: `
+local t = setmetatable({}, {__gc = function() end})
+local ctx = runtime.callcontext({kill = {cpu = 100000}}, function()
+  setmetatable(t, {__gc = function() end})
+end)
+return ctx.status`},
+	{name: "ctx-gc-mark-child-then-parent", maxN: 100, want: wantStr("done"), src: `
+local t = {}
+local ctx = runtime.callcontext({kill = {memory = 1000000}}, function()
+  setmetatable(t, {__gc = function() end})
+end)
+setmetatable(t, {__gc = function() end})
+t = nil
+collectgarbage()
+return ctx.status`},
+	{name: "ctx-file-remark-in-child", maxN: 100, want: wantStr("done"), src: `
+local f = io.tmpfile()
+local ctx = runtime.callcontext({kill = {cpu = 100000}}, function()
+  debug.setmetatable(f, getmetatable(f))
+end)
+f:close()
+return ctx.status`},
+	{name: "ctx-coroutine-created-outside-dies-inside", maxN: 100, want: wantStr("done"), src: `
+local co = coroutine.wrap(function() return 1 end)
+local ctx = runtime.callcontext({kill = {memory = 1000000}}, function() return co() end)
+return ctx.status`},
+	{name: "ctx-coroutine-created-inside-dies-outside", maxN: 100, want: wantStr("done"), src: `
+local co
+local ctx = runtime.callcontext({kill = {memory = 1000000}}, function()
+  co = coroutine.wrap(function() coroutine.yield(1) return 2 end)
+  return co()
+end)
+co()
+return ctx.status`},
+	{name: "ctx-kill-inside-coroutine", maxN: 100, want: wantStr("killed"), src: `
+local ctx = runtime.callcontext({kill = {cpu = 1000}}, function()
+  return coroutine.wrap(function() while true do end end)()
+end)
+return ctx.status`},
+	{name: "ctx-kill-inside-nested-coroutines-close", maxN: 100, want: wantStr("killed"), src: `
+local ctx = runtime.callcontext({kill = {cpu = 2000}}, function()
+  local function f(n)
+    local x <close> = setmetatable({}, {__close = function() end})
+    if n == 0 then while true do end end
+    return coroutine.wrap(f)(n - 1)
+  end
+  return f(5)
+end)
+return ctx.status`},
+}
+
 var recNs = []int64{100, 199, 200, 201, 1000, 100000, 1000000}
 
 type recCase struct {
@@ -484,9 +538,13 @@ const recCPU, recMem = 10000000, 100000000
 
 func recCases(tier string) []recCase {
 	var out []recCase
-	for i := range recTemplates {
-		t := &recTemplates[i]
+	all := append(append([]recTemplate{}, recTemplates...), scenarioTemplates...)
+	for i := range all {
+		t := &all[i]
 		for _, n := range recNs {
+			if strings.HasPrefix(t.name, "ctx-") && n != 100 {
+				continue
+			}
 			if t.maxN != 0 && n > t.maxN {
 				continue
 			}
@@ -512,7 +570,7 @@ func (c recCase) label() string {
 func recFamilies(tier string) []*core.Family {
 	cases := recCases(tier)
 	const name = "d-rec"
-	timeout := 60 * time.Second
+	timeout := 90 * time.Second
 	execFuncs[name] = func(i uint64) runRes {
 		c := cases[i]
 		o := host.Opts{Args: []rt.Value{rt.IntValue(c.n)}}
@@ -522,7 +580,7 @@ func recFamilies(tier string) []*core.Family {
 		return fromObs(host.Run(c.t.src, o))
 	}
 	return []*core.Family{{
-		Name: name, Size: uint64(len(cases)), HangSeconds: 200,
+		Name: name, Size: uint64(len(cases)), HangSeconds: 3600,
 		Show: func(i uint64) string {
 			c := cases[i]
 			return c.label() + "\n" + strings.TrimSpace(c.t.src)
@@ -566,7 +624,7 @@ func judge(fam, label string, limited bool, r runRes, want []string, allowRuntim
 		switch {
 		case r.Crash == "oom" && !limited:
 			class = "oom-unlimited" // resource exhaustion without a limit: not a C04 violation
-		case strings.HasPrefix(r.Crash, "hang") && !limited:
+		case r.Crash == "wallcap", strings.HasPrefix(r.Crash, "hang") && !limited:
 			out.Skipped = true // slow without a limit: cannot be told from a long computation
 			return out
 		default:
